@@ -248,6 +248,7 @@ func ruleGeneric(e *Env, entries []*ssa.Function) {
 		nGeneric++
 		site := flow.FnName(fn)
 		bad := false
+		approved := map[*ssa.MakeInterface]bool{} // boxed input-typed values whose only use is a safe verb of a constant format
 		for _, b := range fn.Blocks {
 			for _, in := range b.Instrs {
 				switch x := in.(type) {
@@ -278,7 +279,7 @@ func ruleGeneric(e *Env, entries []*ssa.Function) {
 						}
 						format, ok := flow.ConstString(x.Call.Args[fi])
 						if !ok {
-							continue
+							continue // an input-typed operand of it, if any, stays unapproved below
 						}
 						args := flow.Varargs(x.Call.Args[fi+1])
 						k := 0
@@ -302,9 +303,33 @@ func ruleGeneric(e *Env, entries []*ssa.Function) {
 								e.S.Bad(rule, site, "verb %"+string(it.Verb), fmt.Sprintf("input-typed operand %d of %q printed with %%%c, which renders string and []byte differently", ix, format, it.Verb), e.posOf(x), "")
 								bad = true
 							}
+							approved[mi] = true
 						}
 					}
 				}
+			}
+		}
+		// any other way of handing an input-typed value to code that can see its dynamic type: fmt.Sprint/Sprintln, a
+		// non-constant format, a helper taking `any`, an interface-typed variable
+		for _, b := range fn.Blocks {
+			for _, in := range b.Instrs {
+				mi, ok := in.(*ssa.MakeInterface)
+				if !ok || !mentionsTypeParam(mi.X.Type()) || approved[mi] {
+					continue
+				}
+				onlyAssert := mi.Referrers() != nil && len(*mi.Referrers()) > 0
+				if onlyAssert {
+					for _, r := range *mi.Referrers() {
+						if _, isTA := r.(*ssa.TypeAssert); !isTA {
+							onlyAssert = false
+						}
+					}
+				}
+				if onlyAssert {
+					continue // reported above
+				}
+				e.S.Bad(rule, site, "boxed input", "a value of the input's type parameter is converted to an interface and leaves the generic body other than as a %q/%s/%x operand of a constant format: its dynamic type (string or []byte) can change what is printed or decided", e.posOf(mi), "")
+				bad = true
 			}
 		}
 		if !bad {
